@@ -4,6 +4,8 @@
 -/
 import PPV.Model.NumOps
 import PPV.Gen.KernelRun
+import PPV.Gen.Idx
+import PPV.Model.AssembleRun
 
 open PPV
 
@@ -13,6 +15,11 @@ def handle (line : String) : String :=
     match PPV.Gen.KernelRun.run name (args.map hexToFloat).toArray with
     | some r => " ".intercalate (r.toList.map floatToHex)
     | none => "bad-kernel"
+  | "asm" :: mode :: n :: b :: _ =>
+    -- the rest of the line after the 4th token is the `|`-separated field list
+    let rest := (line.trimAscii.toString.splitOn "::").getD 1 ""
+    PPV.Model.Assemble.Run.handle mode n.toNat! b.toNat! rest
+      PPV.Gen.IdxNode.ty_P PPV.Gen.IdxNode.ty_PC PPV.Gen.IdxBranch.ty_PC PPV.Gen.IdxNode.ty_T
   | _ => "bad-op"
 
 partial def loop (h : IO.FS.Stream) (out : IO.FS.Stream) : IO Unit := do
